@@ -35,6 +35,7 @@ DReqInit(advertise, initAuto) ==
     mustErr |-> FALSE,      \* a non-recoverable cause was seen: Dial must return an error
     okNil   |-> FALSE,      \* the task returned nil / canceled: Dial must return nil
     rstErr  |-> FALSE,      \* a restore failed with an error that is not tolerated: Dial must report it and stop
+    tolNow  |-> FALSE,      \* the restore of the connection cleaned up last failed with a tolerated error (no dial since)
     tolerated |-> FALSE,    \* the last restore failed with a tolerated error
     cancelAt|-> -1,
     retAt   |-> -1,
@@ -71,7 +72,7 @@ OnDDial(m, e) ==      \* one dial attempt returned e.res at e.t (k > 0 iff ok)
             ELSE IF m.retry >= MaxAttempts THEN DFlag(m, "c10-more-than-max-attempts")
             ELSE IF m.retry >= 0 /\ m.cancelAt = -1 /\ e.t # m.due THEN DFlag(m, "c10-backoff-wait-wrong")
             ELSE m
-      m2 == [m1 EXCEPT !.first = FALSE]
+      m2 == [m1 EXCEPT !.first = FALSE, !.tolNow = FALSE]
   IN IF e.res = "ok"
      THEN [m2 EXCEPT !.open = e.k, !.retry = -1, !.due = -1]
      ELSE FailedAttempt(m2, e.res, e.t)
@@ -108,7 +109,7 @@ OnDSet(m, e) ==
        ELSE m2      \* "perm" is tolerated (the attempt goes on); anything else fails the attempt
   ELSE LET m2 == IF e.val # m.saved THEN DFlag(m1, "c11-autoconf-restored-to-wrong-value") ELSE m1 IN
        IF e.res = "ok" THEN [m2 EXCEPT !.sysctl = e.val]
-       ELSE IF e.res \in {"perm", "notexist"} THEN [m2 EXCEPT !.tolerated = TRUE]      \* sticky
+       ELSE IF e.res \in {"perm", "notexist"} THEN [m2 EXCEPT !.tolerated = TRUE, !.tolNow = TRUE]      \* sticky
        ELSE [m2 EXCEPT !.mustErr = TRUE, !.cause = "autoconf-restore", !.tolerated = TRUE, !.rstErr = TRUE]
 
 OnDCancel(m, e) == IF m.cancelAt = -1 THEN [m EXCEPT !.cancelAt = e.t] ELSE m
@@ -132,6 +133,7 @@ OnDRet(m, e) ==       \* Dial returned e.res in {"nil", "err"}
             ELSE IF m.socks # {} THEN DFlag(m, "c11-return-with-socket-open")
             ELSE IF m.rstErr /\ e.res # "err" THEN DFlag(m, "c11-restore-error-not-reported")     \* (a stop request is no excuse)
             ELSE IF m.mustErr /\ e.res # "err" /\ m.cancelAt = -1 THEN DFlag(m, "c10-error-not-reported")
+            ELSE IF ~m.mustErr /\ e.res = "err" /\ m.tolNow THEN DFlag(m, "c11-tolerated-restore-error-reported")
             ELSE IF ~m.mustErr /\ e.res = "err" THEN DFlag(m, "c10-unexpected-error")
             ELSE IF ~m.mustErr /\ ~m.okNil /\ m.cancelAt = -1 THEN DFlag(m, "c10-returned-without-cause")
             ELSE IF m.adv /\ m.sysctl # m.auto0 /\ ~m.tolerated THEN DFlag(m, "c11-autoconf-not-restored")
